@@ -227,6 +227,9 @@ def compute_mask(mean_volume, reference_volume=None, m=0.2, M=0.9,
     if reference_volume is None:
         reference_volume = mean_volume
     sorted_input = np.sort(mean_volume.reshape(-1))
+    if sorted_input.dtype.kind in 'iub':
+        # gaps and mid-point must not wrap around in narrow integer dtypes
+        sorted_input = sorted_input.astype(np.float64)
     if exclude_zeros:
         sorted_input = sorted_input[sorted_input != 0]
     limiteinf = int(math.floor(m * len(sorted_input)))
